@@ -162,8 +162,10 @@ type openDir struct {
 }
 
 func (d *openDir) Stat() (fs.FileInfo, error) { return d.info, nil }
-func (d *openDir) Read([]byte) (int, error)   { return 0, &fs.PathError{Op: "read", Path: d.name, Err: fs.ErrInvalid} }
-func (d *openDir) Close() error               { return nil }
+func (d *openDir) Read([]byte) (int, error) {
+	return 0, &fs.PathError{Op: "read", Path: d.name, Err: fs.ErrInvalid}
+}
+func (d *openDir) Close() error { return nil }
 func (d *openDir) ReadDir(n int) ([]fs.DirEntry, error) {
 	rest := d.ents[d.off:]
 	if n <= 0 {
